@@ -15,7 +15,8 @@ A = ('Water', 'Ethanol', 'Methanol')       # receiver package
 B = ('Methanol', 'Water')                   # other package: subset, other order
 A4 = ('Water', 'Ethanol', 'Methanol', 'Octane')
 B3 = ('Octane', 'Methanol', 'Water')
-W.preload([A, B])
+B2 = ('Water', 'Methanol')                  # the chemicals of B listed the other way round
+W.preload([A, B, B2])
 
 KINDS = {'l': 'l', 'g': 'g', 's': 's', 'L': 'L', 'S': 'S', 'gl': ('g', 'l'), 'lL': ('l', 'L'), 'Lls': ('L', 'l', 's'),
          'gls': ('g', 'l', 's')}
@@ -33,13 +34,16 @@ def _present(pkg, rows, mode):
         elif mode == 'pos+maybe':
             p[ph, pkg[0]] = 'pos'
             p[ph, pkg[-1]] = 'maybe'
+        elif mode == 'both-pos':
+            p[ph, pkg[0]] = 'pos'
+            p[ph, pkg[-1]] = 'pos'
         elif mode == 'empty':
             pass
     return p
 
 
 def _mk(w, name, kind, pkgname, mode):
-    pkg = {'A': A, 'B': B, 'A4': A4, 'B3': B3}[pkgname]
+    pkg = {'A': A, 'B': B, 'A4': A4, 'B3': B3, 'B2': B2}[pkgname]
     phases = KINDS[kind]
     rows = (phases,) if isinstance(phases, str) else phases
     return W.make_stream(w, name, pkg, phases, present=_present(pkg, rows, mode))
@@ -329,3 +333,55 @@ def copy_flow_remove_phase(w, cfg):
         w.ensure(f'[{cas}] nothing lands in the phase that was not requested', w.eq(v, 0.))
     c0 = dst.chemicals.CASs[0]
     w.canary('canary: target stays empty although the source lost material', w.And(w.eq(held[c0], 0.), w.gt(before[c0] - after[c0], 0.)))
+
+
+# --------------------------------------------------------------------------- histories on one receiver package
+# (added after the seeded change C01_3: index_overlap keyed its per-package cache on the SET of CAS numbers, so the index
+#  list remembered for one ordering of an inlet's chemicals was reused for another ordering.  Every group above starts
+#  from empty caches; here two operations follow each other WITHOUT a reset, with foreign packages that list the same
+#  chemicals in different orders.)
+
+def history_configs(tier):
+    ops = ['mix', 'mix2', 'sep', 'copy_like']
+    out = []
+    for recv in (['l', 'gl'] if tier == 'thorough' else ['l']):
+        for first, second in itertools.product(ops, ops):
+            for p1, p2 in (('B', 'B2'), ('B2', 'B')) + ((('B', 'B'), ('B2', 'B2')) if tier == 'thorough' else ()):
+                for k in (['l', 'g', 'gl'] if tier == 'thorough' else ['l']):
+                    out.append({'name': f'recv={recv};{first}[{k}{p1}]>{second}[{k}{p2}]', 'recv': recv, 'ops': [first, second],
+                                'pkgs': [p1, p2], 'kind': k})
+    return out
+
+
+@group('C01/history', configs=history_configs,
+       functions=['thermosteam.indexer:index_overlap', 'thermosteam._stream:Stream.mix_from', 'thermosteam._stream:Stream.separate_out',
+                  'thermosteam._stream:Stream.copy_like', 'thermosteam.indexer:ChemicalIndexer.mix_from',
+                  'thermosteam.indexer:ChemicalIndexer.separate_out', 'thermosteam.indexer:ChemicalIndexer.copy_like',
+                  'thermosteam.indexer:MaterialIndexer.mix_from', 'thermosteam.indexer:MaterialIndexer.separate_out',
+                  'thermosteam.indexer:MaterialIndexer.copy_like'],
+       notes='two operations in sequence on receivers of one package, caches reset only before the first; inlets on two foreign '
+             'packages listing the same chemicals in different orders')
+def history(w, cfg):
+    W.reset_caches()
+    for step, (op, pk) in enumerate(zip(cfg['ops'], cfg['pkgs'])):
+        recv, _ = _mk(w, f'r{step}', cfg['recv'], 'A', 'empty')
+        own, _ = _mk(w, f'o{step}', 'l', 'A', 'pos+maybe')
+        x, _ = _mk(w, f'x{step}', cfg['kind'], pk, 'both-pos')
+        tx = W.total_by_CAS(x); to = W.total_by_CAS(own)
+        pre = W.snapshot(x)
+        if op == 'mix':
+            recv.mix_from([x], energy_balance=False); expected = tx
+        elif op == 'mix2':
+            recv.mix_from([own, x], energy_balance=False); expected = {c: to.get(c, 0.) + tx.get(c, 0.) for c in set(to) | set(tx)}
+        elif op == 'sep':
+            recv.mix_from([own, x], energy_balance=False); recv.separate_out(x, energy_balance=False); expected = to
+        else:
+            recv.copy_like(x); expected = tx
+        got = W.total_by_CAS(recv)
+        for cas in recv.chemicals.CASs:
+            w.ensure(f'step {step} ({op}): total[{cas}]', w.eq(got[cas], expected.get(cas, 0.)))
+        w.ensure(f'step {step} ({op}): foreign stream unchanged', W.same_snapshot(w, pre, W.snapshot(x)))
+        w.ensure(f'step {step} ({op}): rep_ok', W.rep_ok(w, recv))
+        if step == 0:
+            c0 = recv.chemicals.CASs[0]
+            w.canary('canary: total + 1', w.eq(got[c0], expected.get(c0, 0.) + 1))
